@@ -27,7 +27,7 @@ CHECKS = {
         category="fault_enumeration",
         text="Every executed library line event of first-use build, rebuild after register / unregister / replacement by a twin, "
              "retry after an invalid method (rejected while adapted, or by argument analysis), rebuild after removing it, and "
-             "cache-miss resolution is a crash point (interrupt and MemoryError), also with an already built linked child; plus every "
+             "cache-miss resolution, and the first call of a plain copy, is a crash point (interrupt and MemoryError), also with an already built linked child; plus every "
              "user-hook invocation failing and every rewritten method's source read failing. After each fault all corpus calls, a "
              "further valid registration and a recovery change are compared with freshly built functions. Quick: all visits of all "
              "core/typemap lines and the first two visits elsewhere on three fixed worlds plus a 1-in-8 sample of 40 seeded families; "
@@ -43,8 +43,9 @@ CHECKS["C19"] = dict(
     category="exploration",
     text="Two (sampled: three) real caller threads under a baton-passing scheduler; every line event (sampled runs: every "
          "bytecode of the publishing functions) of library, generated and world code is a yield point. Quick: every single "
-         "pre-emption placement of either thread in seven racing shapes on three fixed worlds, every pair of placements "
-         "(build-check path x entry point / method body / lookup) on one, plus 2400 seeded scenarios under placed / PCT / "
+         "pre-emption placement of either thread in eleven racing shapes (same / different / ambiguous first-time types, cold or "
+         "built) on three fixed worlds, every pair of placements (build-check path x entry point / method body / lookup; every "
+         "visit of a resolution line x the other thread's redundant resolution) on one, plus 2400 seeded scenarios under placed / PCT / "
          "random-walk schedules. Each operation must equal its solo outcome on a fresh function, the function must afterwards "
          "agree with a fresh build on the whole corpus, no deadlock, bounded steps.",
     design_ref="DESIGN.md 4/C19",
